@@ -62,6 +62,10 @@ Theorem C08_observable_target_spec : forall q la m,
   = GI "OBSERVABLE_INCLUDE" [GT_rec (Some (m - (la + 1)))] [Some 0].
 Proof. exact observable_target_spec. Qed.
 
+Theorem C08_observable_untargeted_spec : forall q la m, (la = None \/ m = None) ->
+  LogicalObservableOperation_to_stim_instruction (Some q) la m = GI "OBSERVABLE_INCLUDE" [] [Some 0].
+Proof. exact observable_untargeted_spec. Qed.
+
 Print Assumptions C08_stim_in_order.
 Print Assumptions C08_stim_in_order_documented.
 Print Assumptions C08_leaf_documented.
@@ -71,3 +75,4 @@ Print Assumptions C08_stim_perm_multiset.
 Print Assumptions C08_stim_same_listing_identical.
 Print Assumptions C08_detector_targets_spec.
 Print Assumptions C08_observable_target_spec.
+Print Assumptions C08_observable_untargeted_spec.
